@@ -4,6 +4,7 @@ import (
 	"encoding/json"
 	"fmt"
 	"strings"
+	"unicode/utf8"
 	"sync"
 	"sync/atomic"
 
@@ -255,7 +256,7 @@ func (w *c04Worker) report(r *harness.Run, toks []model.Tok, style model.Style, 
 func checkC04(r *harness.Run) harness.Coverage {
 	r.Rule = "every token sequence over a 25-symbol alphabet (one spelling per token kind, two comparators) up to the length bound, in three whitespace styles, " +
 		"plus every single-token edit of every generated sentence up to the size bound, plus sequences over a 60-symbol alphabet with structured spellings (several valid spellings per kind, and lexically complete literals / quoted identifiers / numbers whose content is invalid); " +
-		"classified by the CFG recogniser G (strict / liberal) and compared with Compile. Non-trivial = the sequence is a sentence, or is one token edit away from a sentence; distinct by token sequence."
+		"classified by the CFG recogniser G (strict / liberal) and compared with Compile; plus every string of up to 3 (thorough 4) symbols of the 60-symbol lexer-class byte alphabet, lexed by the reference lexer and classified the same way. Non-trivial = the sequence is a sentence, or is one token edit away from a sentence; distinct by token sequence."
 	r.Assumptions = []string{
 		"the grammar is the JMESPath ABNF as transcribed in model/grammar.go, grounded on the 862 compliance cases",
 		"gaps G1 (& outside a function argument) and G2-G4 give no verdict",
@@ -431,6 +432,78 @@ func checkC04(r *harness.Run) harness.Coverage {
 		})
 		completedEdit = w
 	}
+	// ---- (4) byte level: every string of the lexer-class byte universe, judged by the reference
+	// lexer + G. No verdict (gap) for invalid UTF-8, control characters and raw strings containing a
+	// backslash (the property texts leave those open); everything else must be accepted iff it lexes
+	// into a sentence.
+	byteN := 3
+	if r.Thorough() {
+		byteN = 4
+	}
+	var byteCases, byteGaps int64
+	syms := univ.ByteSymbols
+	for n := 1; n <= byteN; n++ {
+		total := pow(len(syms), n)
+		harness.Parallel(total, func(wk, i int) {
+			var b strings.Builder
+			x := i
+			for j := 0; j < n; j++ {
+				b.WriteString(syms[x%len(syms)])
+				x /= len(syms)
+			}
+			text := b.String()
+			gap := !utf8.ValidString(text)
+			for _, c := range text {
+				if (c < 0x20 && c != '\t' && c != '\n' && c != '\r') || c == 0x7f {
+					gap = true
+				}
+			}
+			if gap {
+				atomic.AddInt64(&byteGaps, 1)
+				return
+			}
+			w := workers[wk]
+			want := false
+			toks, lerr := model.Lex(text)
+			if lerr == nil && len(toks) > 0 {
+				for _, t := range toks {
+					if t.Kind == model.RAW && strings.Contains(t.Text, `\`) {
+						gap = true
+					}
+				}
+				ks := model.Kinds(toks)
+				gs := w.strict.Accepts(ks)
+				gl := gs || w.liberal.Accepts(ks)
+				cok, cgap := contentOK(toks)
+				if cgap || (gl && !gs) {
+					gap = true
+				}
+				want = gs && cok
+			}
+			if gap {
+				atomic.AddInt64(&byteGaps, 1)
+				return
+			}
+			atomic.AddInt64(&byteCases, 1)
+			jp, err, pn := impl.Compile(text)
+			if pn != nil {
+				return // C05
+			}
+			got := err == nil && jp != nil
+			if got != want {
+				kind := "accepted-ungrammatical"
+				exp := "Compile error: the text does not lex into a sentence of the grammar"
+				if want {
+					kind, exp = "rejected-grammatical", "Compile succeeds: the text lexes into the sentence "+spellKinds(toks)
+				}
+				r.Report(harness.Violation{Kind: kind, Signature: fmt.Sprintf("byte-level:%s:%q", kind, text),
+					Input: map[string]interface{}{"expression": text, "expression_quoted": fmt.Sprintf("%q", text)}, Expected: exp, Observed: fmt.Sprintf("Compile error = %v", err)})
+			}
+		})
+	}
+	evals += byteCases
+	gaps += byteGaps
+	r.Note("byte_level_strings_judged", byteCases)
 	r.Sample(map[string]interface{}{"tokens": "a [ 0 ]", "G": "sentence", "styles": []string{"a[0]", "a [ 0 ]", "\t a [\t0\n]\r\n"}, "Compile": "must succeed"})
 	r.Sample(map[string]interface{}{"tokens": "a ( @ ) ( a )", "G": "not a sentence", "Compile": "must fail"})
 	r.Sample(map[string]interface{}{"tokens": "[ 0", "G": "not a sentence (edit of [ 0 ])", "Compile": "must fail"})
